@@ -30,6 +30,14 @@ structure Inv (cfg : Cfg) (hs : Hashes) (s : St) : Prop where
   outle : ∀ d, (s.supply d).outgoing ≤ (s.supply d).current
   /-- an expired swap is past its expire height -/
   exp : ∀ sw ∈ s.swaps, sw.status = .expired → sw.expire ≤ s.height
+  /-- swap amounts are positive -/
+  pos : ∀ sw ∈ s.swaps, 0 < sw.amt
+  /-- validated params: the minimum swap amount of every asset is positive -/
+  pmin : ∀ d a, getAsset s.assets d = some a → 0 < a.minAmt
+  /-- no swap pays out to a module account (checked at creation) -/
+  rcp : ∀ sw ∈ s.swaps, cfg.macc sw.recipient = false
+  /-- no swap was created by the module account itself (module accounts cannot sign) -/
+  snd : ∀ sw ∈ s.swaps, sw.sender ≠ cfg.module
 
 /-- the closed version of a swap -/
 def done (h : Nat) (sw : Swap) : Swap := { sw with status := .completed, closed := h }
@@ -67,13 +75,14 @@ theorem ltkey_mem {cfg hs s} (h : Inv cfg hs s) {sw : Swap} (hm : sw ∈ s.swaps
 theorem inv_add {cfg hs s} (h : Inv cfg hs s) (n : Swap) (s' : St)
     (hnew : findSwap s.swaps n.id = none) (hid : n.id = getSwapID hs n) (hopen : n.status = .open)
     (e1 : s'.swaps = n :: s.swaps) (e2 : s'.byBlock = insKey s.byBlock (n.expire, n.id))
-    (e3 : s'.longterm = s.longterm) (e4 : s'.height = s.height)
+    (e3 : s'.longterm = s.longterm) (e4 : s'.height = s.height) (e7 : s'.assets = s.assets)
+    (hpos : 0 < n.amt) (hrcp : cfg.macc n.recipient = false) (hsnd : n.sender ≠ cfg.module)
     (hinc : ∀ d, (s'.supply d).incoming = (s.supply d).incoming + val (live .incoming d) n)
     (hout : ∀ d, (s'.supply d).outgoing = (s.supply d).outgoing + val (live .outgoing d) n)
     (hbal : ∀ d, s'.bal cfg.module d = s.bal cfg.module d + val (live .outgoing d) n)
     (hle : ∀ d, (s'.supply d).outgoing ≤ (s'.supply d).current) : Inv cfg hs s' := by
   have hfresh : ∀ x ∈ s.swaps, x.id ≠ n.id := findSwap_none hnew
-  refine ⟨?_, ?_, ?_, ?_, ?_, ?_, ?_, ?_, ?_, hle, ?_⟩
+  refine ⟨?_, ?_, ?_, ?_, ?_, ?_, ?_, ?_, ?_, hle, ?_, ?_, by rw [e7]; exact h.pmin, ?_, ?_⟩
   · rw [e1]; apply nodup_ids_cons.mpr
     refine ⟨?_, h.nodup⟩
     intro hc
@@ -108,6 +117,18 @@ theorem inv_add {cfg hs s} (h : Inv cfg hs s) (n : Swap) (s' : St)
     cases hm with
     | head => rw [hopen] at hs'; cases hs'
     | tail _ hm' => exact h.exp sw hm' hs'
+  · rw [e1]; intro sw hm
+    cases hm with
+    | head => exact hpos
+    | tail _ hm' => exact h.pos sw hm'
+  · rw [e1]; intro sw hm
+    cases hm with
+    | head => exact hrcp
+    | tail _ hm' => exact h.rcp sw hm'
+  · rw [e1]; intro sw hm
+    cases hm with
+    | head => exact hsnd
+    | tail _ hm' => exact h.snd sw hm'
 
 /-! ### close a swap (claim / refund) -/
 
@@ -116,6 +137,7 @@ theorem inv_close {cfg hs s} (h : Inv cfg hs s) {sw : Swap} (hm : sw ∈ s.swaps
     (e1 : s'.swaps = replaceSwap s.swaps (done s.height sw))
     (e2 : s'.byBlock = delKey s.byBlock (sw.expire, sw.id))
     (e3 : s'.longterm = insKey s.longterm (s.height + horizon, sw.id)) (e4 : s'.height = s.height)
+    (e7 : s'.assets = s.assets)
     (hinc : ∀ d, (s'.supply d).incoming = (s.supply d).incoming - val (live .incoming d) sw)
     (hout : ∀ d, (s'.supply d).outgoing = (s.supply d).outgoing - val (live .outgoing d) sw)
     (hbal : ∀ d, s'.bal cfg.module d = s.bal cfg.module d - val (live .outgoing d) sw)
@@ -130,7 +152,7 @@ theorem inv_close {cfg hs s} (h : Inv cfg hs s) {sw : Swap} (hm : sw ∈ s.swaps
     · rintro (hl | hr)
       · exact Or.inl hl
       · exact Or.inr ⟨hr, sw, hm, rfl⟩
-  refine ⟨?_, ?_, ?_, ?_, ?_, ?_, ?_, ?_, ?_, hle, ?_⟩
+  refine ⟨?_, ?_, ?_, ?_, ?_, ?_, ?_, ?_, ?_, hle, ?_, ?_, by rw [e7]; exact h.pmin, ?_, ?_⟩
   · rw [e1, ids_replace]; exact h.nodup
   · intro x hx
     rcases (hmem x).mp hx with ⟨hx', -⟩ | rfl
@@ -169,6 +191,18 @@ theorem inv_close {cfg hs s} (h : Inv cfg hs s) {sw : Swap} (hm : sw ∈ s.swaps
     rcases (hmem x).mp hx with ⟨hx', -⟩ | rfl
     · exact h.exp x hx' hxs
     · simp [done] at hxs
+  · intro x hx
+    rcases (hmem x).mp hx with ⟨hx', -⟩ | rfl
+    · exact h.pos x hx'
+    · exact h.pos sw hm
+  · intro x hx
+    rcases (hmem x).mp hx with ⟨hx', -⟩ | rfl
+    · exact h.rcp x hx'
+    · exact h.rcp sw hm
+  · intro x hx
+    rcases (hmem x).mp hx with ⟨hx', -⟩ | rfl
+    · exact h.snd x hx'
+    · exact h.snd sw hm
 
 /-! ### expire one swap (one callback of UpdateExpiredAtomicSwaps) -/
 
@@ -177,7 +211,7 @@ theorem inv_expire {cfg hs s} (h : Inv cfg hs s) {sw : Swap} (hm : sw ∈ s.swap
     (e1 : s'.swaps = replaceSwap s.swaps (expd sw))
     (e2 : s'.byBlock = delKey s.byBlock (sw.expire, sw.id))
     (e3 : s'.longterm = s.longterm) (e4 : s'.height = s.height)
-    (e5 : s'.supply = s.supply) (e6 : s'.bal = s.bal) : Inv cfg hs s' := by
+    (e5 : s'.supply = s.supply) (e6 : s'.bal = s.bal) (e7 : s'.assets = s.assets) : Inv cfg hs s' := by
   have hdid : (expd sw).id = sw.id := rfl
   have hmem : ∀ x, x ∈ s'.swaps ↔ (x ∈ s.swaps ∧ x.id ≠ sw.id) ∨ x = expd sw := by
     intro x; rw [e1, mem_replace]
@@ -188,7 +222,7 @@ theorem inv_expire {cfg hs s} (h : Inv cfg hs s) {sw : Swap} (hm : sw ∈ s.swap
     · rintro (hl | hr)
       · exact Or.inl hl
       · exact Or.inr ⟨hr, sw, hm, rfl⟩
-  refine ⟨?_, ?_, ?_, ?_, ?_, ?_, ?_, ?_, ?_, ?_, ?_⟩
+  refine ⟨?_, ?_, ?_, ?_, ?_, ?_, ?_, ?_, ?_, ?_, ?_, ?_, by rw [e7]; exact h.pmin, ?_, ?_⟩
   · rw [e1, ids_replace]; exact h.nodup
   · intro x hx
     rcases (hmem x).mp hx with ⟨hx', -⟩ | rfl
@@ -227,6 +261,18 @@ theorem inv_expire {cfg hs s} (h : Inv cfg hs s) {sw : Swap} (hm : sw ∈ s.swap
     rcases (hmem x).mp hx with ⟨hx', -⟩ | rfl
     · exact h.exp x hx' hxs
     · exact hdue
+  · intro x hx
+    rcases (hmem x).mp hx with ⟨hx', -⟩ | rfl
+    · exact h.pos x hx'
+    · exact h.pos sw hm
+  · intro x hx
+    rcases (hmem x).mp hx with ⟨hx', -⟩ | rfl
+    · exact h.rcp x hx'
+    · exact h.rcp sw hm
+  · intro x hx
+    rcases (hmem x).mp hx with ⟨hx', -⟩ | rfl
+    · exact h.snd x hx'
+    · exact h.snd sw hm
 
 /-! ### prune one swap (one callback of DeleteClosedAtomicSwapsFromLongtermStorage) -/
 
@@ -235,9 +281,9 @@ theorem inv_prune {cfg hs s} (h : Inv cfg hs s) {sw : Swap} (hm : sw ∈ s.swaps
     (e1 : s'.swaps = delSwap s.swaps sw.id)
     (e2 : s'.byBlock = s.byBlock)
     (e3 : s'.longterm = delKey s.longterm (sw.closed + horizon, sw.id)) (e4 : s'.height = s.height)
-    (e5 : s'.supply = s.supply) (e6 : s'.bal = s.bal) : Inv cfg hs s' := by
+    (e5 : s'.supply = s.supply) (e6 : s'.bal = s.bal) (e7 : s'.assets = s.assets) : Inv cfg hs s' := by
   have hv : ∀ dir d, val (live dir d) sw = 0 := by intro dir d; simp [val, live, hc]
-  refine ⟨?_, ?_, ?_, ?_, ?_, ?_, ?_, ?_, ?_, ?_, ?_⟩
+  refine ⟨?_, ?_, ?_, ?_, ?_, ?_, ?_, ?_, ?_, ?_, ?_, ?_, by rw [e7]; exact h.pmin, ?_, ?_⟩
   · rw [e1]; exact ids_delSwap_nodup _ h.nodup
   · intro x hx; rw [e1, mem_delSwap] at hx; exact h.idok x hx.1
   · intro e; rw [e2, h.bb]
@@ -270,18 +316,24 @@ theorem inv_prune {cfg hs s} (h : Inv cfg hs s) {sw : Swap} (hm : sw ∈ s.swaps
   · intro d; rw [e5]; exact h.outle d
   · rw [e4]; intro x hx hxs
     rw [e1, mem_delSwap] at hx; exact h.exp x hx.1 hxs
+  · intro x hx; rw [e1, mem_delSwap] at hx; exact h.pos x hx.1
+  · intro x hx; rw [e1, mem_delSwap] at hx; exact h.rcp x hx.1
+  · intro x hx; rw [e1, mem_delSwap] at hx; exact h.snd x hx.1
 
 /-! ### transitions that leave swaps and indexes alone -/
 
 theorem inv_frame {cfg hs s} (h : Inv cfg hs s) (s' : St)
     (e1 : s'.swaps = s.swaps) (e2 : s'.byBlock = s.byBlock) (e3 : s'.longterm = s.longterm)
     (e4 : s.height ≤ s'.height)
+    (hpm : ∀ d a, getAsset s'.assets d = some a → 0 < a.minAmt)
     (hinc : ∀ d, (s'.supply d).incoming = (s.supply d).incoming)
     (hout : ∀ d, (s'.supply d).outgoing = (s.supply d).outgoing)
     (hcur : ∀ d, (s'.supply d).current = (s.supply d).current)
     (hbal : ∀ d, s'.bal cfg.module d = s.bal cfg.module d) : Inv cfg hs s' := by
   refine ⟨by rw [e1]; exact h.nodup, by rw [e1]; exact h.idok, by rw [e1, e2]; exact h.bb,
-    by rw [e2]; exact h.bbnd, by rw [e1, e3]; exact h.lt, by rw [e3]; exact h.ltnd, ?_, ?_, ?_, ?_, ?_⟩
+    by rw [e2]; exact h.bbnd, by rw [e1, e3]; exact h.lt, by rw [e3]; exact h.ltnd, ?_, ?_, ?_, ?_, ?_,
+    by rw [e1]; exact h.pos, hpm, by rw [e1]; exact h.rcp,
+    by rw [e1]; exact h.snd⟩
   · intro d; rw [hinc, e1]; exact h.inc d
   · intro d; rw [hout, e1]; exact h.out d
   · intro d; rw [hbal, e1]; exact h.cust d
